@@ -80,7 +80,7 @@ theorem connInv_localLogin (n : Net) (y : Nat) (u p : String) (hi : ConnInv n) :
           · rename_i hj; subst hj; rw [hnd]; simp [h1]
           · rfl
         cases n with
-        | mk nodes time nextId stuck =>
+        | mk nodes time nextId stuck blocked hairpin =>
           simp only [Net.upd, Net.mk.injEq, and_true, true_and]
           apply List.ext_getElem?
           intro j; exact hn j
@@ -223,18 +223,18 @@ theorem connInv_localConn (n : Net) (y : Nat) (u p : String) (id : Nat) (hid : (
     have := (h1.priv y j' b a' l hb ha' (fun h => hne h.symm) hl).2 l' hl'
     rw [hlid] at this; exact this
 
-theorem canDeliver_ne {n : Net} {x y : Nat} (h : canDeliver n x y = true) : x ≠ y := by
+/-- without the hairpin (hosts on one switch) a node never reaches itself -/
+theorem canDeliver_ne {n : Net} {x y : Nat} (hp : n.hairpin = false) (h : canDeliver n x y = true) : x ≠ y := by
   unfold canDeliver at h
   split at h
-  · simp only [Bool.and_eq_true, bne_iff_ne, ne_eq] at h; exact h.1.1.1
+  · simp only [hp, Bool.or_false, Bool.and_eq_true, bne_iff_ne, ne_eq] at h; exact h.1.1.1.1
   · cases h
 
 /-- a remote login (both connections carry the fresh id and name each other) keeps the invariant -/
 theorem connInv_remoteLogin (n : Net) (x y : Nat) (u p : String) (hi : ConnInv n) : ConnInv (opRemoteLogin n x y u p).1 := by
   rcases opRemoteLogin_cases n x y u p with ⟨h0, _⟩ | ⟨a, b, _, _, hdel, _, _, _, h0⟩
   · rw [h0]; exact hi
-  · have hxy := canDeliver_ne hdel
-    have hA : ConnInv (afterLogin n x y u) := by
+  · have hA : ConnInv (afterLogin n x y u) := by
       unfold afterLogin
       refine connInv_put hi (putAt_upd n y ⟨n.nextId, some x⟩ (fun b => b.addSession ⟨n.nextId, u, n.time, x⟩) (fun b => ⟨rfl, rfl⟩) _)
         (by simp) (by simp) ?_ ?_
@@ -273,9 +273,12 @@ theorem C16_conn_inv_step (n : Net) (op : Op) (hi : ConnInv n) : ConnInv (step n
   have r : ∀ j (a : Node), ConnShr j a a := F.refl
   cases op with
   | enableUser y u => exact connInv_of_rel (F.toPre.enableUser n y u (fun a => r y a)) (step_nextId_mono n (.enableUser y u)) hi
+  | addUserBypass y u p adm =>
+    exact connInv_of_rel (F.toPre.addUserBypass n y u p adm (fun a _ => r y a)) (step_nextId_mono n (.addUserBypass y u p adm)) hi
   | localLogin y u p => simp only [step]; rw [opLocalLogin_fst]; exact connInv_localLogin n y u p hi
   | localLogout y => exact connInv_of_rel (F.localLogout n y) (step_nextId_mono n (.localLogout y)) hi
   | tick => exact connInv_of_rel (F.tick n) (step_nextId_mono n .tick) hi
+  | setBlock x y on => exact connInv_of_rel (rel_setBlock F.refl n x y on) (Nat.le_refl _) hi
   | req y c =>
     refine exec_induction'' (fun n m => ConnInv n → ConnInv m) (fun _ h => h) (fun _ _ _ h1 h2 h => h2 (h1 h)) ?_
       (fun n y cid => connInv_of_rel (F.rel_shr F.shr (F.rel_refl n) (shr_disconnect _ _ _ _))
